@@ -212,7 +212,9 @@ func init() {
 			mkRef("", "A"), mkRef("D", "a"), mkRef("", "acme-eula"), mkRef("", "ACME-EULA"), mkRef("vendor", "acme-eula"), mkRef("Vendor", "acme-eula"), mkRef("", "mit"), mkRef("", "gpl-2.0"),
 			// operator words as whole segments of a name, in two letter cases (passes that re-case operators in the text)
 			mkRef("", "MIT-or-Apache"), mkRef("", "MIT-Or-Apache"), mkRef("", "MIT-OR-Apache"), mkRef("", "a-and-b"), mkRef("", "a-AND-b"), mkRef("", "x.with.y"), mkRef("", "x.WITH.y"),
-			mkRef("acme-or-sub", "x1"), mkRef("acme-OR-sub", "x1")}
+			mkRef("acme-or-sub", "x1"), mkRef("acme-OR-sub", "x1"),
+			// names that end in a character a "trailer" clean-up might strip
+			mkRef("", "v1"), mkRef("", "v1."), mkRef("", "v1-"), mkRef("", "v1.."), mkRef("d.", "v1"), mkRef("d", "v1")}
 		terms = append(terms, refs...)
 		countN("terms", len(terms))
 		// within-family pairs exhaustively, others sampled
@@ -312,6 +314,29 @@ func init() {
 			}
 			if len(corrQ) > 50000 {
 				flushCorr()
+			}
+		}
+		// every listed id that is a PREFIX of another listed id, against that id (fixed-width keys, prefix comparisons)
+		{
+			listed := append(append([]string{}, tblActive...), tblDeprecated...)
+			for _, a := range listed {
+				for _, b := range listed {
+					if a != b && strings.HasPrefix(b, a) && !strings.HasSuffix(a, "+") && !strings.HasSuffix(b, "+") {
+						for _, pl := range [][2]bool{{false, false}, {true, false}, {false, true}, {true, true}} {
+							ta, tb := mkTerm(a, "", pl[0], "", -1), mkTerm(b, "", pl[1], "", -1)
+							if !implValid(ta.text) || !implValid(tb.text) {
+								continue
+							}
+							if fl := c02Pair(ta, tb, true); fl != nil {
+								fail(*fl)
+							}
+							if fl := c02Pair(tb, ta, true); fl != nil {
+								fail(*fl)
+							}
+							count("prefix_id_pairs")
+						}
+					}
+				}
 			}
 		}
 		// ids ADJACENT in the order of the lists, one of them WITH the first / the last exception of the exception list (terms
@@ -1423,6 +1448,31 @@ func init() {
 						fail(failure{Stream: "oracle", What: "'+' on the expression side against a list of 12 among look-alikes and unrelated ids: " + what, Case: &kase{Expr: a + "+", ExprHex: hx(a + "+"), Allowed: l2}, Impl: r2.String(), Expected: fmt.Sprint(want9)})
 						break
 					}
+				}
+			}
+			// TWO '+' terms of the family in one AND group (pruning of "implied" terms), and the same version with and without
+			// '+' in two alternatives of which the first fails late (per-call memos keyed without the '+')
+			if rng.Intn(scale(4, 1)) == 0 && implValid(a+"+") && implValid(b+"+") && a != b {
+				for _, x := range []string{a, b} {
+					wantT := implMatch(a+"+", x) == 1 && implMatch(b+"+", x) == 1
+					for _, e := range []string{a + "+ AND " + b + "+", b + "+ AND " + a + "+", "(" + a + "+ AND " + b + "+) OR LicenseRef-none"} {
+						r := implSat(e, []string{x})
+						res.Evaluations++
+						count("two_plus_terms_in_and")
+						if r.err != nil || r.panicv != nil || r.ok != wantT {
+							fail(failure{Stream: "oracle", What: "two '+' terms of one family in an AND group: " + what, Case: &kase{Expr: e, ExprHex: hx(e), Allowed: []string{x}}, Impl: r.String(), Expected: fmt.Sprint(wantT)})
+						}
+					}
+				}
+				if a != "AAL" && b != "AAL" && a != "MIT" && b != "MIT" && a != "Zlib" && b != "Zlib" {
+					e := "(AAL AND " + a + "+ AND Zlib) OR (" + a + " AND MIT)"
+					l := []string{"AAL", b, "MIT"}
+					wantM := implMatch(a, b) == 1
+					if r := implSat(e, l); r.err != nil || r.panicv != nil || r.ok != wantM {
+						fail(failure{Stream: "oracle", What: "the same version with '+' in an alternative that fails late and without '+' in the next one: " + what, Case: &kase{Expr: e, ExprHex: hx(e), Allowed: l}, Impl: r.String(), Expected: fmt.Sprint(wantM)})
+					}
+					res.Evaluations++
+					count("plus_then_plain_alternatives")
 				}
 			}
 			// the '+' term inside a longer alternative beside the bare id alone (rows compared or pruned by string prefix):
